@@ -184,7 +184,7 @@ func runConv(c J) J {
 		if s, ok := c["src"]; ok {
 			src = str(s)
 		}
-		pair := J{"compile": "none", "invoke": "none"}
+		pair := J{"compile": "none", "invoke": "none", "warm": "none"}
 		var callable yae.Callable
 		var err error
 		var pan interface{}
@@ -208,6 +208,20 @@ func runConv(c J) J {
 				pair["msg"] = clip(o.err.Error(), 100)
 			default:
 				pair["invoke"] = "value"
+			}
+			// a fresh callable, first used with the compile-time sample itself, then with b
+			if c2, err2 := yae.NewExpr().Compile(src, ifaceOf(obj(c["a"]))); err2 == nil {
+				_ = invoke(func() (*val.Val, error) { return c2(ifaceOf(obj(c["a"]))) })
+				_ = invoke(func() (*val.Val, error) { return c2(ifaceOf(obj(c["a"]))) })
+				o2 := invoke(func() (*val.Val, error) { return c2(ifaceOf(obj(b))) })
+				switch {
+				case o2.pan != nil:
+					pair["warm"] = "panic"
+				case o2.err != nil:
+					pair["warm"] = "error"
+				default:
+					pair["warm"] = "value"
+				}
 			}
 		}
 		obs["pair"] = pair
